@@ -290,6 +290,52 @@ fn eval_seq(ctx: &mut Ctx, env: &Env, seq: &[usize], fi: usize, with_cli: bool) 
     }
 }
 
+fn large_counts(thorough: bool) -> Vec<(u32, usize)> {
+    let mut v = vec![(17u32, 9_999usize), (17, 99_999), (17, 100_000), (4, 99_999), (4, 100_000)];
+    if thorough {
+        v.extend([(17, 999_999), (17, 1_000_000), (4, 1_000_000), (21, 1_234_567)]);
+    }
+    v
+}
+
+fn large_count_case(ctx: &mut Ctx, k: usize, df: u32, n: usize) {
+    use crate::run::{TimedStep, run_timed};
+    let mk = |df: u32, i: u32| -> Vec<u8> {
+        match df {
+            17 => frames::df17(5, A, frames::me_velocity(&frames::Vel { st: 1, vew: 1 + i % 700, vns: 5, vr: 1 + i % 100, ..Default::default() })),
+            4 => frames::df4(A, frames::ac13_for_alt(100 * (i as i32 % 300))),
+            _ => frames::df21(A, frames::id13_for_squawk(1000 + i % 7), 0),
+        }
+        .hex()
+        .into_bytes()
+    };
+    let mut first: Vec<Vec<u8>> = (0..3).map(|_| frames::df11(5, A, 0).hex().into_bytes()).collect();
+    first.extend((0..n as u32).map(|i| mk(df, i)));
+    let steps = vec![TimedStep { bytes: join_lines(&first), advance_ms: 10_000 }, TimedStep { bytes: join_lines(&[frames::df11(5, B, 0).hex().into_bytes()]), advance_ms: 0 }];
+    let cfg = Cfg::named(&["-i", "", "-c", "-u", "3"], "count.fifo");
+    let t = new_table();
+    let (rep, out) = capture_stdout(|| run_timed(&cfg, &steps, &t));
+    ctx.eval();
+    if let Some(m) = rep.machinery {
+        ctx.machinery(format!("C16 large count: {m}"));
+        return;
+    }
+    let blocks = cli::blocks(&out);
+    let got = blocks.last().and_then(|b| block_counter_line(b));
+    let mut refc: BTreeMap<u32, u32> = BTreeMap::new();
+    refc.insert(11, 4);
+    *refc.entry(df).or_insert(0) += n as u32;
+    let want = counter_line(&refc);
+    if !rep.outcome.is_ok() || blocks.len() < 3 || got.as_deref() != Some(want.as_str()) {
+        ctx.violation(
+            "C16/large-count",
+            &format!("{n} x DF{df}"),
+            || format!("3 DF11, {n} DF{df}, then (10 s later) one more DF11: expected the counter line '{want}', printed {got:?} ({} refreshes, reader {})", blocks.len().saturating_sub(2), rep.outcome.label()),
+            || json!({"large_count": k}),
+        );
+    }
+}
+
 fn eval_no_c(ctx: &mut Ctx, env: &Env, seq: &[usize]) {
     let content = join_lines(&seq.iter().map(|&s| env.syms[s].line.clone()).collect::<Vec<_>>());
     let o = opts_for(&None, false, false);
@@ -369,6 +415,15 @@ fn run(ctx: &mut Ctx) {
             }
         }
     }
+    // large counts: n frames of one format, the table drawn once at the end (timed run: the clock is moved
+    // before the last frame) - the counter line shows the exact numbers however many digits they have
+    for (k, (df, n)) in large_counts(ctx.tier.thorough()).into_iter().enumerate() {
+        job += 1;
+        if ctx.mine(job) {
+            ctx.count("large-count");
+            large_count_case(ctx, k, df, n);
+        }
+    }
     // on a table whose rows are 30 s old: a line that is rejected or whose DF is not in the -f list
     // leaves the table bit-identical (in particular it does not restart the last-contact age)
     job += 1;
@@ -413,6 +468,13 @@ fn run(ctx: &mut Ctx) {
 fn replay(ctx: &mut Ctx, case: &Value) {
     if let Err(e) = cli::available() {
         ctx.machinery(e);
+        return;
+    }
+    if let Some(k) = case.get("large_count").and_then(|x| x.as_u64()) {
+        let all = large_counts(true);
+        let (df, n) = all[k as usize % all.len()];
+        crate::run::say(&format!("{n} frames of DF{df}, table drawn at the end"));
+        large_count_case(ctx, k as usize, df, n);
         return;
     }
     let env = Env::new();
